@@ -912,9 +912,14 @@ def _render_context(tmpl, callable_, context, *args, **kwargs):
     # create polymorphic 'self' namespace for this
     # template with possibly updated context
     if not isinstance(tmpl, template.DefTemplate):
-        # if main render method, call from the base of the inheritance stack
-        inherit, lclcontext = _populate_self_namespace(context, tmpl)
-        _exec_template(inherit, lclcontext, args=args, kwargs=kwargs)
+        # if main render method, call from the base of the inheritance stack.
+        # locating the inherited templates is part of the render: what it
+        # raises is subject to error_handler / format_exceptions as well
+        def render_from_base(context, *args, **kwargs):
+            inherit, lclcontext = _populate_self_namespace(context, tmpl)
+            return inherit(lclcontext, *args, **kwargs)
+
+        _exec_template(render_from_base, context, args=args, kwargs=kwargs)
     else:
         # otherwise, call the actual rendering method specified
         inherit, lclcontext = _populate_self_namespace(context, tmpl.parent)
